@@ -31,6 +31,50 @@ class Raised:
         return isinstance(other, Raised) and type(self.e) is type(other.e) and str(self.e) == str(other.e)
 
 
+MUTABLE = (list, dict, set, bytearray)
+
+
+def shared_state_lines(modules):
+    """{code object: set of line numbers} that read or write module-level / class-level MUTABLE state: globals that some
+    function of the module rebinds (STORE_GLOBAL), globals bound to a list / dict / set / bytearray / file-like object, and
+    class attributes of those kinds.  These are where two threads can meet; the pre-emption points after them come first"""
+    import dis
+    import io
+    out = {}
+    for mod in modules:
+        g = vars(mod)
+        codes = [(co, None) for co in code_objects([mod])]
+        hot_names, hot_attrs = set(), set()
+        for co, _ in codes:
+            for ins in dis.get_instructions(co):
+                if ins.opname in ("STORE_GLOBAL", "DELETE_GLOBAL"):
+                    hot_names.add(ins.argval)
+        for name, v in g.items():
+            if name.startswith("__"):
+                continue
+            if isinstance(v, MUTABLE) or isinstance(v, io.IOBase):
+                hot_names.add(name)
+            if isinstance(v, type) and v.__module__ == mod.__name__:
+                for an, av in vars(v).items():
+                    if not an.startswith("__") and (isinstance(av, MUTABLE) or isinstance(av, io.IOBase)):
+                        hot_attrs.add(an)
+        if not hot_names and not hot_attrs:
+            continue
+        for co, _ in codes:
+            lines = set()
+            for ins in dis.get_instructions(co):
+                ln = ins.positions.lineno if ins.positions else None
+                if ln is None:
+                    continue
+                if ins.opname in ("LOAD_GLOBAL", "STORE_GLOBAL", "DELETE_GLOBAL") and ins.argval in hot_names:
+                    lines.add(ln)
+                elif ins.opname in ("LOAD_ATTR", "STORE_ATTR", "LOAD_METHOD") and ins.argval in hot_attrs:
+                    lines.add(ln)
+            if lines:
+                out[co] = lines
+    return out
+
+
 def code_objects(modules):
     out = []
     seen = set()
@@ -62,8 +106,15 @@ class Preempter:
         self.mon = sys.monitoring
         self.ok = self.mon.get_tool(TOOL) is None
         self.codes = code_objects(modules) if self.ok else []
+        try:
+            self.hot = shared_state_lines(modules) if self.ok else {}
+        except Exception:
+            self.hot = {}
         self.trace = []
+        self.meta = []          # per event of the last counted run: (stack depth, touches shared mutable state)
         self.loc_uses = {}
+        self.hot_uses = {}
+        self.window_events = 0
         self.ctl = {"a": None, "k": 0, "count": 0, "b": None, "inside": False, "b_out": None, "b_ran": False}
         if not self.ok:
             return
@@ -87,6 +138,15 @@ class Preempter:
             except Exception:
                 caller = ""
             self.trace.append((code.co_filename.rsplit("/", 1)[-1], code.co_name, line, caller))
+            depth = 0
+            try:
+                fr = sys._getframe(2)
+                while fr is not None and depth < 200:
+                    depth += 1
+                    fr = fr.f_back
+            except Exception:
+                pass
+            self.meta.append((depth, line in self.hot.get(code, ())))
         if ctl["count"] == ctl["k"]:
             ctl["inside"] = True
             t = threading.Thread(target=self._run_b)
@@ -122,21 +182,39 @@ class Preempter:
 
     def count(self, work_a):
         self.trace = []
+        self.meta = []
         self._run_a(work_a, None, 0)
         return self.ctl["count"]
 
     def points_by_location(self, rng, n):
         """n event indices (1-based) of the last counted run, chosen so that DISTINCT source locations are covered rather than
         the most frequently executed ones: the locations seen least often so far (over this Preempter's life) come first"""
-        by_loc = {}
+        by_loc, hot_by_loc = {}, {}
+        open_depth = None
         for i, loc in enumerate(self.trace):
             by_loc.setdefault(loc, []).append(i + 1)
-        locs = sorted(by_loc, key=lambda l: (self.loc_uses.get(l, 0), rng.random()))
+            # a WINDOW opens where a function touches shared mutable state and lasts until that invocation returns (the events
+            # of its callees included): half of the points are taken there
+            depth, touches = self.meta[i] if i < len(self.meta) else (0, False)
+            if open_depth is not None and depth < open_depth:
+                open_depth = None
+            if touches and open_depth is None:
+                open_depth = depth
+            if open_depth is not None:
+                hot_by_loc.setdefault(loc, []).append(i + 1)
+        self.window_events = sum(len(v) for v in hot_by_loc.values())
         out = []
-        for loc in locs[:n]:
+        if hot_by_loc:
+            locs = sorted(hot_by_loc, key=lambda l: (self.hot_uses.get(l, 0), rng.random()))
+            for loc in locs[:max(1, n // 2)]:
+                self.hot_uses[loc] = self.hot_uses.get(loc, 0) + 1
+                self.loc_uses[loc] = self.loc_uses.get(loc, 0) + 1
+                out.append(rng.choice(hot_by_loc[loc]))
+        locs = sorted(by_loc, key=lambda l: (self.loc_uses.get(l, 0), rng.random()))
+        for loc in locs[:max(0, n - len(out))]:
             self.loc_uses[loc] = self.loc_uses.get(loc, 0) + 1
             out.append(rng.choice(by_loc[loc]))
-        return sorted(out)
+        return sorted(set(out))
 
     def run(self, work_a, work_b, k):
         """(A's result, B's result, did the switch happen)"""
